@@ -20,6 +20,9 @@ import (
 	"net"
 	"os"
 	"path/filepath"
+	"runtime"
+	"runtime/debug"
+	"strings"
 	"sync"
 	"testing"
 	"time"
@@ -116,8 +119,8 @@ type Script struct {
 	// PathStyle: how the two paths are spelled when handed to the watcher: "clean", "dot" (dir/./tls.crt),
 	// "slashes" (dir//tls.key): legal spellings of the same files (fsnotify reports cleaned names)
 	PathStyle string `json:"path_style,omitempty"`
-	Steps  []Step `json:"steps"`
-	Settle struct {
+	Steps     []Step `json:"steps"`
+	Settle    struct {
 		Style string `json:"style"` // inplace-cert-first, inplace-key-first, rename-cert-first, rename-key-first, swap
 		Pair  int    `json:"pair"`
 		// Blockwise: the certificate bundle is written block by block (the file holds the new leaf alone for a moment)
@@ -127,6 +130,9 @@ type Script struct {
 	// "" (none), "alt-chain" (same leaf and key, re-issued intermediate), "renewal" (new leaf over the same key)
 	// Churn: that many further complete in-place rotations, back to back, while the handshakers keep going
 	Churn int `json:"churn,omitempty"`
+	// Idle: nobody connects while the files change, and the garbage collector does not run (an idle proxy
+	// goes minutes without a collection): whatever the watcher leaves to finalizers stays undone
+	Idle      bool   `json:"idle,omitempty"`
 	Then      string `json:"then,omitempty"`
 	ThenStyle string `json:"then_style,omitempty"` // inplace, rename
 }
@@ -192,6 +198,7 @@ func gen(t *rapid.T) Script {
 	if s.Layout != "k8s" && rapid.IntRange(0, 3).Draw(t, "churn") == 0 {
 		s.Churn = rapid.IntRange(20, 60).Draw(t, "nchurn")
 	}
+	s.Idle = s.Churn == 0 && rapid.IntRange(0, 3).Draw(t, "idle") == 0
 	if s.Layout != "k8s" {
 		s.Settle.Blockwise = (s.Settle.Style == "inplace-key-first") && rapid.Bool().Draw(t, "blockwise")
 		s.Then = rapid.SampledFrom([]string{"", "", "alt-chain", "renewal"}).Draw(t, "then")
@@ -379,6 +386,9 @@ func exec(s Script) (v *vstat.Violation, classes []string) {
 	case "slashes":
 		w.certPath, w.keyPath = dir+"//tls.crt", dir+"//tls.key"
 	}
+	if s.Idle {
+		defer func(p int) { debug.SetGCPercent(p); runtime.GC() }(debug.SetGCPercent(-1))
+	}
 	cw, err := certwatcher.New(w.certPath, w.keyPath)
 	if err != nil {
 		return vstat.Violf("setup|watcher-rejects-valid-pair", "certwatcher.New: %v", err), nil
@@ -395,7 +405,11 @@ func exec(s Script) (v *vstat.Violation, classes []string) {
 	var safety *vstat.Violation
 	handshakes := 0
 	var hwg sync.WaitGroup
-	for h := 0; h < 4; h++ {
+	nHandshakers := 4
+	if s.Idle {
+		nHandshakers = 0
+	}
+	for h := 0; h < nHandshakers; h++ {
 		hwg.Add(1)
 		go func() {
 			defer hwg.Done()
@@ -650,6 +664,13 @@ func exec(s Script) (v *vstat.Violation, classes []string) {
 	if s.PathStyle != "" && s.PathStyle != "clean" {
 		classes = append(classes, "paths-not-in-clean-form")
 	}
+	if s.Idle {
+		if strings.HasPrefix(s.Settle.Style, "inplace") {
+			classes = append(classes, "idle-proxy-no-gc:inplace")
+		} else {
+			classes = append(classes, "idle-proxy-no-gc:rename-or-swap")
+		}
+	}
 	classes = append(classes, "layout:"+s.Layout, "settle:"+s.Settle.Style, fmt.Sprintf("handshakes-during-history>0:%v", nh > 0))
 	if broken {
 		classes = append(classes, "broken-intermediate-state")
@@ -668,7 +689,7 @@ func exec(s Script) (v *vstat.Violation, classes []string) {
 
 func TestReload(t *testing.T) {
 	getPairs()
-	col.Mandatory("layout:flat", "layout:k8s", "settle:swap", "settle:inplace-key-first", "settle:rename-cert-first", "broken-intermediate-state", "two-update-styles", "then:alt-chain", "then:renewal", "bundle-written-block-by-block", "paths-not-in-clean-form", "many-rotations-under-handshake-load")
+	col.Mandatory("idle-proxy-no-gc:rename-or-swap", "layout:flat", "layout:k8s", "settle:swap", "settle:inplace-key-first", "settle:rename-cert-first", "broken-intermediate-state", "two-update-styles", "then:alt-chain", "then:renewal", "bundle-written-block-by-block", "paths-not-in-clean-form", "many-rotations-under-handshake-load")
 	vstat.Run(t, vstat.Spec[Script]{Col: col, Quick: 150, Thorough: 4000, Gen: gen,
 		Exec: func(s Script) *vstat.Violation {
 			v, cl := exec(s)
